@@ -12,7 +12,7 @@ structure Cfg where
   clientId : Str
   clientSecret : Str
   callbackUri : Str
-  cbScheme : Str            -- url.Parse(callbackUri): Scheme, Hostname(), Port(), Path (oracle, supplied by the harness)
+  cbScheme : Str            -- url.Parse(callbackUri): Scheme, Hostname(), Port(), EscapedPath() (oracle, supplied by the harness)
   cbHost : Str
   cbPort : Str
   cbPath : Str
